@@ -33,7 +33,7 @@ FEATS = dict(
 def build_cases(tier):
     K = 2 if tier == "quick" else 3
     feats = dict(FEATS) if tier == "quick" else dict(FEATS, price_pairs=S.PRICE_PAIRS[:2])
-    split = dict(feats, grids=["8x6h", "4x6h_off", "7xh_autumn"], modes=["split:12h", "split:d", "split:5h"])
+    split = dict(feats, grids=["8x6h", "4x6h_off", "7xh_autumn"], modes=["split:12h", "split:d", "split:5h"], common_window=[8, 1, 9])
     cases, stats = merge_cases(family("main", lambda ch: S.gen_portfolio(ch, feats), K),
                                family("split", lambda ch: S.gen_portfolio(ch, split), K),
                                family("wrapped", c07.gen_wrapped, K))
